@@ -172,4 +172,27 @@ theorem validateFee_ok {p : Policy} {t : Tag} {sumIn sumOut w : Nat}
   simp at h1 h2 h3
   exact ⟨h1, estimateFeerate_ge hw0 h2, estimateFeerate_le hw0 hw hmax h3⟩
 
+theorem commitmentWeight_pos (a : Bool) (k : Nat) : 0 < commitmentWeight a k := by
+  unfold commitmentWeight
+  cases a <;> simp [Gen.Policy.commitmentBaseAnchorWeight, Gen.Policy.commitmentBaseWeight] <;> omega
+
+theorem commitmentWeight_le (a : Bool) (k : Nat) (hk : k ≤ 1048576) : commitmentWeight a k ≤ 268435456 := by
+  unfold commitmentWeight
+  cases a <;> simp [Gen.Policy.commitmentBaseAnchorWeight, Gen.Policy.commitmentBaseWeight,
+    Gen.Policy.commitmentWeightPerHtlc] <;> omega
+
+/-- the verdict of either validator on a commitment passes through the common checks -/
+theorem validateCommitment_tx (p : Policy) (s : Setup) (c : ChainState) (e : EState) (n : Nat) (i : Info)
+    (point : Nat) (h : validateCommitment p s c e n i point = .ok ()) : validateCommitmentTx p s c n i = .ok () := by
+  unfold validateCommitment at h
+  split at h
+  · unfold validateCounterparty at h
+    obtain ⟨_, _, h⟩ := bind_ok h
+    obtain ⟨⟨⟩, h1, _⟩ := bind_ok h
+    exact h1
+  · unfold validateHolder at h
+    obtain ⟨_, _, h⟩ := bind_ok h
+    obtain ⟨⟨⟩, h1, _⟩ := bind_ok h
+    exact h1
+
 end VlsModel.Policy
